@@ -34,6 +34,10 @@ impl Controller for StaticResourceController {
 
         let components = boxed_url_components.unwrap();
 
+        if Range::is_path_traversal(&components.path) {
+            return false
+        }
+
         let os_specific_separator : String = FileExt::get_path_separator();
         let os_specific_path = &components.path.replace(SYMBOL.slash, os_specific_separator.as_str());
 
@@ -178,6 +182,10 @@ impl Controller for StaticResourceController {
 impl StaticResourceController {
 
     pub fn is_matching_request(request: &Request) -> bool {
+        if Range::is_path_traversal(&request.request_uri) {
+            return false
+        }
+
         let boxed_static_filepath = FileExt::get_static_filepath(&request.request_uri);
         if boxed_static_filepath.is_err() {
             return false
